@@ -391,8 +391,16 @@ pub fn run(ctx: &Ctx) -> i32 {
         for comp in ["sink.write", "sink.flush", "source.read", "source.seek", "chunk.write", "chunk.flush", "chunk.read", "chunk.seek", "creator.create", "merge.merge"] {
             ctx.obligation(&format!("faults injected in {}", comp), ctx.has_tag("faulted_component_ops", comp));
         }
-        for call in ["Writer::insert", "Reader::new", "ReaderCursor::move_on_next", "MergerIter::next", "Sorter::insert", "Sorter::into_stream_merger_iter", "Sorter::write_into_stream_writer", "Sorter::into_reader_cursors", "Merger::write_into_stream_writer", "RangeIter::next", "PrefixIter::next"] {
-            ctx.obligation(&format!("faults surfacing in {}", call), ctx.has_tag("faulted_public_calls", call));
+        // which public call a fault surfaces from depends on when the library touches the component
+        // (buffering, caching, lazy positioning are all allowed): only the call *families* are
+        // required
+        for (family, prefixes) in [
+            ("writer", &["Writer::"][..]),
+            ("reader / cursor / iterators", &["Reader::", "ReaderCursor::", "RangeIter::", "RevRangeIter::", "PrefixIter::", "RevPrefixIter::"][..]),
+            ("merger", &["Merger::", "MergerIter::"][..]),
+            ("sorter", &["Sorter::"][..]),
+        ] {
+            ctx.obligation(&format!("faults surfacing in {} calls", family), prefixes.iter().any(|p| ctx.tags_matching("faulted_public_calls", p)));
         }
         for c in gen::codecs() {
             ctx.obligation(&format!("reader faults with codec {}", gen::codec_name(c)), ctx.has_tag("reader_codecs", gen::codec_name(c)));
